@@ -25,6 +25,7 @@ func init() {
 
 type rsReport struct {
 	F  string `json:"f"`
+	C  string `json:"c"`
 	L  int    `json:"l"`
 	Lo int    `json:"lo"`
 	Hi int    `json:"hi"`
@@ -38,10 +39,19 @@ type rsState struct {
 	ReadsB    int        `json:"readsB"`
 }
 
+// line 2 of file "a" is 600 bytes long (every 12-byte window of it is unique, see linePattern)
+func rsLine(name string, i int) string {
+	if name == "a" && i == 2 {
+		return linePattern(600, "ascii")
+	}
+	return fmt.Sprintf("%s line %d", name, i)
+}
+
 func rsContent(name string, n int) string {
 	var b strings.Builder
 	for i := 1; i <= n; i++ {
-		fmt.Fprintf(&b, "%s line %d\n", name, i)
+		b.WriteString(rsLine(name, i))
+		b.WriteString("\n")
 	}
 	return b.String()
 }
@@ -107,6 +117,12 @@ func reporterSeqReplay(args []string) int {
 		}
 		for k, r := range st.Hist {
 			pos := files[r.F].LineStart(r.L)
+			switch r.C {
+			case "mid":
+				pos += 300
+			case "tail":
+				pos += 590
+			}
 			before := len(msgs)
 			func() {
 				defer func() {
@@ -127,8 +143,8 @@ func reporterSeqReplay(args []string) int {
 				if m := exLineRe.FindStringSubmatch(ml); m != nil {
 					var num int
 					fmt.Sscan(m[1], &num)
-					want := fmt.Sprintf("%s line %d", r.F, num)
-					if m[2] != want {
+					want := rsLine(r.F, num)
+					if len(want) <= 200 && m[2] != want {
 						fail(k, "text of an excerpt line", want, m[2])
 					}
 					if lo == 0 || num < lo {
